@@ -1139,6 +1139,31 @@ class Body:
             self._assertions = allf
         return self._passert
 
+    def compiled_assertions(self):
+        """[(fact, block)] of the always-compiled assertions of the body (`assert!`, `if !c { panic!() }`, `let .. else { panic }`):
+        asserting switches that are not inside a build-configuration switch (`debug_assert!` tests `cfg!(debug_assertions)` first)"""
+        self.presence_assertions()
+        d = self.dom()
+        cfg_blocks = set()
+        for bi in self.reachable:
+            t = self.blocks[bi]["term"]
+            if t["k"] == "switch" and t.get("exp"):
+                op = t["op"]
+                if op.get("k") in ("move", "copy") and not op["place"]["proj"]:
+                    for st in reversed(self.blocks[bi]["stmts"]):
+                        if st.get("k") == "assign" and st["lhs"]["local"] == op["place"]["local"]:
+                            if not st["lhs"]["proj"] and st["rv"]["k"] == "use":
+                                op = st["rv"]["op"]
+                            break
+                if op.get("k") == "const":
+                    cfg_blocks.add(bi)
+        out = []
+        for f, bs in self._assertions.items():
+            for b in bs:
+                if not any(cb in d.get(b, ()) and cb != b for cb in cfg_blocks):
+                    out.append((f, b))
+        return out
+
     def asserted(self, f, site):
         """fact f at `site` comes from a switch, dominating the site, whose other outcomes never reach a normal return
         (`assert!(c)`, `debug_assert!`, `if !c { panic!() }`, `let .. else { unreachable!() }`): the call either panics or c
